@@ -361,6 +361,60 @@ int main(void) {
     return errs, len(exp_recv) + len(exp_obs)
 
 
+# regression/run/tutorial/testc.c is stale upstream (it includes wrapClass1.h, which tutorial.yaml has not produced since Class1 moved to classes.yaml)
+UPSTREAM_C = ["classes", "enum-c", "namespace", "statement", "struct-cxx", "templates", "types"]
+
+
+def upstream_c_case(args):
+    """Upstream's own C test program (regression/run/<name>/testc.c) against the wrappers generated from the current tree."""
+    workdir, repo, name = args
+    from .. import corpus
+    from . import c05
+
+    cfg = [c for c in corpus.configs(repo) if c[0] == name]
+    src = os.path.join(repo, "regression", "run", name, "testc.c")
+    if not cfg or not os.path.exists(src):
+        return name, "skipped", "no configuration / no testc.c"
+    out = os.path.join(workdir, "out")
+    r = corpus.generate(repo, cfg[0], out, [])
+    if r.status != "ok":
+        shutil.rmtree(workdir, ignore_errors=True)
+        return name, "skipped", "does not generate (C05's subject): %s" % (r.msg or "")[:100]
+    info = c05.run_info(repo, name)
+    if info is None:
+        shutil.rmtree(workdir, ignore_errors=True)
+        return name, "skipped", "needs another library's output"
+    lang = "c" if name.endswith("-c") else "cxx"
+    incs = ["-I."] + ["-I" + i for i in info["incs"]]
+    objs = []
+    try:
+        for s_ in info["srcs"] + sorted(os.path.join(out, f) for f in os.listdir(out) if f.startswith(("wrap", "util")) and f.endswith((".c", ".cpp"))):
+            if (s_.endswith(".c") != (lang == "c")) and s_ in info["srcs"] and len(info["srcs"]) > 1:
+                continue
+            o = os.path.basename(s_) + ".o"
+            # a library kept in one .c file is compiled as the language of the configuration (as upstream's Makefile does)
+            as_c = s_.endswith(".c") and (lang == "c" or s_ not in info["srcs"])
+            rc, so, se = build.sh((["gcc", "-std=c99"] if as_c else ["g++", "-std=c++11", "-x", "c++"]) + ["-g", "-O0", "-w"] + incs + ["-c", s_, "-o", o], out)
+            if rc != 0:
+                raise build.BuildError("compile " + os.path.basename(s_), se[:300])
+            objs.append(o)
+        rc, so, se = build.sh(["gcc", "-std=c99", "-g", "-O0", "-w"] + incs + ["-c", src, "-o", "testc.o"], out)
+        if rc != 0:
+            shutil.rmtree(workdir, ignore_errors=True)
+            return name, "api", "upstream's C test program does not compile against the generated headers: %s" % se[:500]
+        rc, so, se = build.sh(["g++", "-o", "testc", "testc.o"] + objs, out)
+        if rc != 0:
+            raise build.BuildError("link", se[:300])
+    except build.BuildError as e:
+        shutil.rmtree(workdir, ignore_errors=True)
+        return name, "skipped", "does not build (C05's subject): %s" % str(e)[:160]
+    rc, so, se = build.sh(["./testc"], out, timeout=60)
+    shutil.rmtree(workdir, ignore_errors=True)
+    if rc != 0:
+        return name, "fail", "exit %d: %s" % (rc, ((se or "") + (so or ""))[-400:])
+    return name, "ok", ""
+
+
 def run(ctx):
     quick = ctx.tier == "quick"
     W = ctx.workers
@@ -408,6 +462,17 @@ def run(ctx):
         calls += n
         for kind, what, msg in errs:
             ctx.violation("%s %s [naming %s]" % (kind, what, naming), msg, {"kind": kind, "scenario": True, "naming": naming})
+    ures = isolate.pmap(upstream_c_case, [(os.path.join(wd, "up-" + n), ctx.repo, n) for n in UPSTREAM_C], W)
+    ran, skipped = [], []
+    for name, st, info in ures:
+        if st == "skipped":
+            skipped.append("%s: %s" % (name, info))
+            continue
+        ran.append(name)
+        calls += 1
+        if st != "ok":
+            ctx.violation("upstream c test %s %s" % (name, st), "upstream's own C test program regression/run/%s/testc.c: %s" % (name, info), {"kind": "upstream-test", "config": name})
+    ctx.part("upstream_c_tests", configurations_run=ran, skipped=skipped)
     ctx.count(states=len(sigs) + 2, transitions=calls, validated=calls)
     ctx.nontrivial_n(len(sigs) + 2)
     ctx.part("atom_libraries", libraries=len(jobs), function_shapes=len(sigs), calls=calls, namings=list(NAMING),
